@@ -129,6 +129,36 @@ func c10EngineOver(fs fstest.MapFS) *c10Engine {
 	return &c10Engine{vue: vuego.NewVue(fs).RegisterNodeProcessor(&c09Numberer{}), tpl: vuego.NewFS(fs, vuego.WithProcessor(&c09Numberer{}))}
 }
 
+// State that outlives an engine (process-wide memos of parsed paths or compiled expressions) must not let one
+// render decide what a later render of a look-alike template means: templates that differ only in white space
+// inside a key, rendered in either order on fresh engines, each print their own values. Runs first in the process.
+func c10LookAlike(r *Run) {
+	data := func() map[string]any {
+		return map[string]any{
+			"person": map[string]any{"first name": "Ada", "firstname": "Bob"}, "place": map[string]any{"home town": "Linz", "hometown": "Graz"},
+			"n": map[string]any{"a b": 1, "ab": 2}, "who": "W"}
+	}
+	type step struct{ tpl, want string }
+	seq := []step{
+		{`<p>{{ person['first name'] }}|{{ place['hometown'] }}</p>`, "<p>Ada|Graz</p>"},
+		{`<p>{{ person['firstname'] }}|{{ place['home town'] }}</p>`, "<p>Bob|Linz</p>"},
+		{`<p :title="n['a b']" v-if="n['ab'] == 2">{{ n['ab'] }}</p>`, `<p title="1">2</p>`},
+		{`<p :title="n['ab']" v-if="n['a b'] == 1">{{ n['a b'] }}</p>`, `<p title="2">1</p>`},
+		{`<p>{{ person['first name'] }}|{{ person['firstname'] }}|{{ place['home town'] }}|{{ place['hometown'] }}</p>`, "<p>Ada|Bob|Linz|Graz</p>"},
+	}
+	for round := 0; round < 2; round++ {
+		for _, st := range seq {
+			out, err := c10RenderFuncs(st.tpl, data(), nil)
+			r.Eval(fmt.Sprintf("lookalike:%d:%s", round, st.tpl), true, nil)
+			r.Count("stream:look-alike-templates(oracle only)")
+			if err != nil || strings.TrimSpace(out) != st.want {
+				r.Fail("a template prints the value of a look-alike path rendered earlier in the process", map[string]string{"oracle": "look-alike"},
+					map[string]any{"template": st.tpl, "output": out, "expected": st.want, "err": fmt.Sprint(err), "round": round})
+			}
+		}
+	}
+}
+
 // The template files are inputs of a call too: after a file was replaced - by a newer or by an OLDER version
 // (a roll-back, a restored backup, an override removed from an upper layer) - a long-lived engine renders
 // what a fresh engine renders.
@@ -250,6 +280,7 @@ func runC10(r *Run) {
 		"every program on a fresh engine is the reference; each is rendered 20 times (thorough 60) on one long-lived engine, after every other program (all ordered pairs) and inside random sequences of length <= 8, failing programs included; " +
 		"caller data is printed before and after every call; the template cache is dumped after the first and after the last render; non-trivial: the program has >= 2 map entries / bound attributes / front-matter, or follows a different program")
 	r.Assume("this stream compares the implementation with itself (bytes); the Coq model contributes the order-independence and pool theorems and the regenerated table of map-iteration sites")
+	c10LookAlike(r)
 	c10FileEdits(r)
 	progs := c10Catalogue()
 	ref := map[string][2]string{}
@@ -357,7 +388,7 @@ func runC10(r *Run) {
 // what each caller-owned map holds when it comes back.
 func c10PoolHistories(r *Run) {
 	r.Imports = []string{"Model.MapOrder"}
-	keys := []string{"a", "b", "c", "d"}
+	keys := []string{"a", "b", "c", "d", "e", "f", "g", "h", "i", "j", "k", "l"} // scopes of any size: 0 to 12 names
 	vals := []string{"1", "2", "x", "", "old"}
 	n := 400
 	if r.Thorough() {
@@ -402,10 +433,19 @@ func c10PoolHistories(r *Run) {
 				ops = append(ops, fmt.Sprintf("CO (PPushOwn bytes %d [%s])", o.id, strings.Join(lit, "; ")))
 				desc = append(desc, fmt.Sprintf("push-own#%d%v", o.id, m))
 			case x < 7:
-				kk, v := Pick(r.Rng, keys), Pick(r.Rng, vals)
-				st.Set(kk, v)
-				ops = append(ops, "CO (PSet bytes "+coqBytes(kk)+" "+coqBytes(v)+")")
-				desc = append(desc, "set "+kk+"="+v)
+				burst := 1
+				if r.Rng.Intn(4) == 0 { // many names in one scope (a <template a=.. b=.. ...> in a loop body does that)
+					burst = 6 + r.Rng.Intn(7)
+				}
+				for b := 0; b < burst; b++ {
+					kk, v := Pick(r.Rng, keys), Pick(r.Rng, vals)
+					if burst > 1 {
+						kk = keys[(b+j)%len(keys)]
+					}
+					st.Set(kk, v)
+					ops = append(ops, "CO (PSet bytes "+coqBytes(kk)+" "+coqBytes(v)+")")
+					desc = append(desc, "set "+kk+"="+v)
+				}
 			case x < 9:
 				st.Pop()
 				if len(onStack) > 0 {
